@@ -78,6 +78,17 @@ fn main() {
     if tier != "thorough" {
         tier = "quick".into();
     }
+    // Shard and worker processes die with the process that started them (a parent stopped by its watchdog or by
+    // `timeout` must not leave children spinning): the spawning thread always waits for its child, so the signal
+    // cannot come early.
+    if shard.is_some() || prop.ends_with("-worker") {
+        unsafe {
+            libc::prctl(libc::PR_SET_PDEATHSIG, libc::SIGKILL as libc::c_ulong);
+            if libc::getppid() == 1 {
+                std::process::exit(2);
+            }
+        }
+    }
     let thorough = tier == "thorough";
 
     if prop == "selftest" {
